@@ -56,10 +56,12 @@ CONSTANTS
   NEnv,            \* number of environments
   Lits,            \* sequence of [nm, v]: literal scalars
   Zeros,           \* sequence of shapes: zero tensors (instances of Zero)
-  Slices,          \* sequence of [ops, ids, idx, maxnodes, maxrank, fargs]: the bounded instances explored
-                   \* in this run: enabled operations, usable initial nodes, usable index names
-                   \* (integers >= 10), bound on constructed nodes, bound on the rank, and "all the
-                   \* form's arguments" (set of <<number, part>>) of a form made of the slice's terms
+  Slices,          \* sequence of [ops, ids, idx, maxnodes, maxrank, fargs, canon]: the bounded instances
+                   \* explored in this run: enabled operations, usable initial nodes, usable index names
+                   \* (integers >= 10), bound on constructed nodes, bound on the rank, "all the
+                   \* form's arguments" (set of <<number, part>>) of a form made of the slice's terms,
+                   \* and whether a + b, a * b are only built with a <= b (Sum and Product sort their
+                   \* operands: b + a, b * a are the same objects)
   MaxDim,          \* maximal axis dimension
   ComplexMode,     \* BOOLEAN: compute_form_data(..., complex_mode=...)
   ListTensorRule,  \* "as_coded" | "intended"
@@ -400,10 +402,11 @@ Unary(op, a) ==
   \/ op = "as_tensor" /\ Gen(a) /\ \E ii \in IdxSeqs : DoAsTensor(a, ii)
   \/ op = "restrict" /\ DoRestrict(a)
   \/ op = "variable" /\ Gen1(a) /\ DoVariable(a)
+Canon(a, b) == Slices[sl].canon => a <= b
 Binary(op, a, b) ==
-  \/ op = "add" /\ Gen2(a, b) /\ DoAdd(a, b)
+  \/ op = "add" /\ Gen2(a, b) /\ Canon(a, b) /\ DoAdd(a, b)
   \/ op = "sub" /\ Gen2(a, b) /\ a # b /\ DoSub(a, b)
-  \/ op = "mul" /\ Gen2(a, b) /\ ~IsOne(a) /\ ~IsOne(b) /\ DoMul(a, b)
+  \/ op = "mul" /\ Gen2(a, b) /\ ~IsOne(a) /\ ~IsOne(b) /\ Canon(a, b) /\ DoMul(a, b)
   \/ op = "div" /\ Gen2(a, b) /\ ~IsOne(b) /\ DoDiv(a, b)
   \/ op = "pow" /\ Gen2(a, b) /\ ~IsOne(b) /\ DoPow(a, b)
   \/ op \in BoolOps /\ ~(IsL(a) /\ IsL(b)) /\ DoCmp(op, a, b)
